@@ -369,6 +369,14 @@ func crashEnumerate(h *histRunner, i int, op gen.HOp, rest []gen.HOp, o *Outcome
 				w2 := observeModel(m2, h.u)
 				g2 := observeReal(db3, h.u, h.workDir)
 				for kk := range h.masked {
+					if kk == "vertex-labels" || kk == "edge-labels" {
+						// the recorded finding is about labels going stale inside a
+						// living graph; a graph that has just been created lists no
+						// labels at all, whatever was interrupted before
+						if len(m2.Graphs) == 1 {
+							continue
+						}
+					}
 					w2.dropKind(kk)
 					g2.dropKind(kk)
 				}
